@@ -69,6 +69,11 @@ def expected_after(history, R):
 
 
 def compare(got, exp, what):
+    if got and exp and all(isinstance(v, dict) for v in got.values()):      # {input: {path: text}}
+        out = []
+        for x in sorted(got):
+            out += compare(got[x], exp.get(x, {}), f"{what}, input {x}")
+        return out
     msgs = []
     if set(got) != set(exp):
         msgs.append(f"files: {what}: output holds {sorted(set(got) - set(exp))[:4]} unexpectedly and lacks "
@@ -205,7 +210,7 @@ def run(ctx):
     R = reference()
     R2 = reference("4242")
     if R != R2:
-        ctx.violation({"kind": "reference"}, ["bytes: two fresh reference runs under different hash seeds differ"])
+        ctx.violation({"kind": "reference"}, compare(R2, R, "reference under hash seed 4242"), cls="bytes hash-seed")
     names = list(INPUTS)
     n = 3 if quick else 4
     hjobs = []
@@ -240,7 +245,7 @@ def run(ctx):
 def replay(case):
     R = reference()
     if isinstance(case, dict):
-        return []
+        return compare(reference("4242"), R, "reference under hash seed 4242") if case.get("kind") == "reference" else []
     if isinstance(case, int):
         return run_seed(case, R)["viol"]
     if len(case) == 3:
